@@ -973,21 +973,6 @@ impl<'a> HpoTerm<'a> {
     /// # Panics
     /// TODO    
     pub fn path_to_term(&self, other: &HpoTerm) -> Option<Vec<HpoTermId>> {
-        if other.parent_of(self) {
-            return self.path_to_ancestor(other);
-        }
-        if self.parent_of(other) {
-            return other.path_to_ancestor(self).map(|terms| {
-                terms
-                    .iter()
-                    .rev()
-                    .skip(1)
-                    .chain(std::iter::once(&other.id()))
-                    .copied()
-                    .collect()
-            });
-        }
-
         self.all_common_ancestors(other)
             .iter()
             .map(|ancestor| {
@@ -1002,7 +987,8 @@ impl<'a> HpoTerm<'a> {
             })
             .min_by_key(|tuple| tuple.1)
             .map(|min| {
-                self.path_to_ancestor(&min.0)
+                let mut path: Vec<HpoTermId> = self
+                    .path_to_ancestor(&min.0)
                     .expect("self must have a path to its ancestor")
                     .iter()
                     .chain(
@@ -1013,9 +999,13 @@ impl<'a> HpoTerm<'a> {
                             .rev()
                             .skip(1),
                     )
-                    .chain(std::iter::once(&other.id()))
                     .copied()
-                    .collect()
+                    .collect();
+                // if `other` is the meeting point, the path already ends with it
+                if path.last() != Some(&other.id()) {
+                    path.push(other.id());
+                }
+                path
             })
     }
 
